@@ -204,3 +204,76 @@ func zzSeqExportContinuity() {
 	zzsymAssert(back.localEpoch == epoch, "imported_epoch")
 	zzsymCover("exported")
 }
+
+type zzSeal9 struct {
+	epoch  uint16
+	seqs   *[]uint64
+	epochs *[]uint16
+	hdrSeq *[]uint16
+}
+
+func (p *zzSeal9) Seal(h recordlayer.UnifiedHeader, seq uint64, ct protocol.ContentType, pt []byte) (recordlayer.CiphertextRecord13, error) {
+	*p.seqs = append(*p.seqs, seq)
+	*p.epochs = append(*p.epochs, p.epoch)
+	*p.hdrSeq = append(*p.hdrSeq, h.SequenceNumber)
+	out := make([]byte, len(pt)+17)
+	h.Length = uint16(len(out))
+	return recordlayer.CiphertextRecord13{Header: h, EncryptedRecord: out}, nil
+}
+func (p *zzSeal9) Open(recordlayer.UnifiedHeader, uint64, []byte) (recordlayer.InnerPlaintext, error) {
+	return recordlayer.InnerPlaintext{}, nil
+}
+func (p *zzSeal9) UnmaskSequenceNumber(h recordlayer.UnifiedHeader, _ []byte) (recordlayer.UnifiedHeader, error) {
+	return h, nil
+}
+
+// DTLS 1.3 send path (processPacket -> processProtectedPacket -> sealRecordContent) with write generations retained for
+// epochs 3 and 4 (4 is current) and arbitrary per-epoch counters: a record for packet epoch e (3 or 4; application
+// data, alert or ACK) is sealed by the generation OF EPOCH e with the FULL 64-bit record number just allocated from
+// epoch e's counter (that number is what the AEAD nonce is built from; the header carries its low 16 bits), the counter
+// of e advances by one and the other epoch's counter is untouched; two consecutive records get consecutive numbers. So
+// the pair (key generation, record number) never repeats, also beyond 2^16 records and for a record of a superseded
+// epoch emitted after a key update.
+//
+//symgo:entry covers=current_epoch,superseded_epoch
+func zzSeqOnWire13() {
+	c := zzConn12(&zzFakeSuite{})
+	st := dtlsstate.Activate13(c.state)
+	c.state = st
+	st.LocalVersion = protocol.Version1_3
+	var seqs []uint64
+	var epochs, hdr []uint16
+	st.TrafficKeys.Install(&dtlsstate.TrafficGeneration{Epoch: 3, Protection: &zzSeal9{epoch: 3, seqs: &seqs, epochs: &epochs, hdrSeq: &hdr}}, nil)
+	st.TrafficKeys.Install(&dtlsstate.TrafficGeneration{Epoch: 4, Generation: 1, Protection: &zzSeal9{epoch: 4, seqs: &seqs, epochs: &epochs, hdrSeq: &hdr}}, nil)
+	st.SetLocalEpoch(4)
+	st.LocalSequenceNumber = []uint64{0, 0, 0, zzsymU64("ctr3"), zzsymU64("ctr4")}
+	e := uint16(3 + zzsymChoice("packet_epoch", 2))
+	pre, other := st.LocalSequenceNumber[e], st.LocalSequenceNumber[7-e]
+	zzsymAssume(pre <= recordlayer.MaxSequenceNumber-2)
+	mk := func() *dtlsflight.Packet {
+		var content protocol.Content = &protocol.ApplicationData{Data: zzsymBytes("pay", 2)}
+		if zzsymChoice("kind", 2) == 1 {
+			content = &protocol.ACK{}
+		}
+		return &dtlsflight.Packet{
+			Record:        &recordlayer.RecordLayer{Header: recordlayer.Header{Epoch: e, Version: protocol.Version1_2}, Content: content},
+			ShouldEncrypt: true,
+		}
+	}
+	_, err := c.processPacket(mk())
+	zzsymAssert(err == nil, "seal_ok")
+	zzsymAssert(len(seqs) == 1, "one_seal")
+	zzsymAssert(epochs[0] == e, "sealed_by_generation_of_packet_epoch")
+	zzsymAssert(seqs[0] == pre, "aead_record_number_is_full_allocated_number")
+	zzsymAssert(hdr[0] == uint16(pre), "header_carries_low_16_bits")
+	zzsymAssert(st.LocalSequenceNumber[e] == pre+1, "counter_advanced_once")
+	zzsymAssert(st.LocalSequenceNumber[7-e] == other, "other_epoch_counter_untouched")
+	_, err = c.processPacket(mk())
+	zzsymAssert(err == nil && len(seqs) == 2, "second_seal_ok")
+	zzsymAssert(epochs[1] == e && seqs[1] == pre+1, "second_record_gets_next_number_same_generation")
+	if e == 4 {
+		zzsymCover("current_epoch")
+	} else {
+		zzsymCover("superseded_epoch")
+	}
+}
